@@ -2022,7 +2022,11 @@ class Kconfig(object):
 
         if normalize_unset:
             unset_match = re.compile(r"# {}([^ ]+) is not set".format(self.config_prefix)).match
-            lines = contents.splitlines()
+            # Split on "\n" only: str.splitlines() also splits on form feed, NEL, U+2028 etc., which may
+            # legitimately occur inside string values
+            lines = contents.split("\n")
+            if lines[-1] == "":
+                lines.pop()
             for idx, line in enumerate(lines):
                 match = unset_match(line)
                 if match:
